@@ -103,6 +103,18 @@ type probe struct {
 var table = []probe{
 %s}
 
+// generated script templates with three string parameters, rendered on request:  S <name> <hexa> <hexb> <hexc>
+var scripts = map[string]func(a, b, c string) templ.Component{
+%s}
+
+func unhex(h string) string {
+	if h == "-" {
+		return ""
+	}
+	b, _ := hex.DecodeString(h)
+	return string(b)
+}
+
 func main() {
 	in := bufio.NewReaderSize(os.Stdin, 1<<20)
 	out := bufio.NewWriterSize(os.Stdout, 1<<20)
@@ -110,7 +122,19 @@ func main() {
 	for {
 		line, err := in.ReadString('\n')
 		line = strings.TrimRight(line, "\n")
-		if line != "" {
+		if strings.HasPrefix(line, "S ") {
+			f := strings.Split(line, " ")
+			var buf bytes.Buffer
+			if fn, ok := scripts[f[1]]; !ok || len(f) != 5 {
+				fmt.Fprintf(out, "S !unknown\n")
+			} else if rerr := fn(unhex(f[2]), unhex(f[3]), unhex(f[4])).Render(context.Background(), &buf); rerr != nil {
+				fmt.Fprintf(out, "S !%%x\n", rerr.Error())
+			} else if buf.Len() == 0 {
+				fmt.Fprintf(out, "S -\n")
+			} else {
+				fmt.Fprintf(out, "S %%x\n", buf.Bytes())
+			}
+		} else if line != "" {
 			var s []byte
 			if line != "-" {
 				s, _ = hex.DecodeString(line)
@@ -153,7 +177,7 @@ func probeValue(s string) val {
 // compiled against core.Repo()) - one file per probe, so that a probe the parser or generator mishandles does not
 // take the others with it -, writes a module replacing templ by the tree under check, and compiles it.
 // Returns the generated Go text per probe and the probes that could not be generated.
-func buildProbes() (*scratch, map[string]string, map[string]string, error) {
+func buildProbes(pl scriptPlan) (*scratch, map[string]string, map[string]string, error) {
 	dir, err := os.MkdirTemp("", "c03probes")
 	if err != nil {
 		return nil, nil, nil, err
@@ -201,7 +225,23 @@ func buildProbes() (*scratch, map[string]string, map[string]string, error) {
 			fmt.Fprintf(&tbl, "\t{%q, func(s string) templ.Component { return probes.%s(s, map[string]any{\"k\": []any{s, 1, nil}, s: true}) }},\n", n, n)
 		}
 	}
-	if err = os.WriteFile(filepath.Join(dir, "main.go"), []byte(fmt.Sprintf(probeMain, tbl.String())), 0o644); err != nil {
+	// the compiled sample of generated script templates (scripts.go)
+	var tbl2 strings.Builder
+	seen := map[int]bool{}
+	for _, i := range pl.compiled {
+		if seen[i] {
+			continue
+		}
+		seen[i] = true
+		name := fmt.Sprintf("S%d", i)
+		one(name, pl.all[i].source(name))
+		if _, ok := gen[name]; ok {
+			fmt.Fprintf(&tbl2, "\t%q: probes.%s,\n", name, name)
+		} else {
+			delete(bad, name) // a generated template the parser rejects is not a broken probe; scripts.go compares the model
+		}
+	}
+	if err = os.WriteFile(filepath.Join(dir, "main.go"), []byte(fmt.Sprintf(probeMain, tbl.String(), tbl2.String())), 0o644); err != nil {
 		return fail(err)
 	}
 	gomod := "module c03probes\n\ngo 1.23.0\n\nrequire github.com/a-h/templ v0.0.0\n\nreplace github.com/a-h/templ => " + core.Repo() + "\n"
@@ -221,6 +261,39 @@ func buildProbes() (*scratch, map[string]string, map[string]string, error) {
 		return fail(fmt.Errorf("go build of the generated probes failed: %v: %s", err, o))
 	}
 	return s, gen, bad, nil
+}
+
+// runLines sends S-requests (one rendering each) and returns the rendered bytes in order
+func (s *scratch) runLines(lines []string) ([]string, error) {
+	if len(lines) == 0 {
+		return nil, nil
+	}
+	cmd := exec.Command("timeout", "900", s.bin)
+	cmd.Stdin = strings.NewReader(strings.Join(lines, "\n") + "\n")
+	var errb bytes.Buffer
+	cmd.Stderr = &errb
+	o, err := cmd.Output()
+	if err != nil {
+		return nil, fmt.Errorf("probe binary: %v: %s", err, errb.String())
+	}
+	var res []string
+	sc := bufio.NewScanner(bytes.NewReader(o))
+	sc.Buffer(make([]byte, 1<<20), 1<<28)
+	for sc.Scan() {
+		f := strings.SplitN(sc.Text(), " ", 2)
+		if len(f) != 2 || f[0] != "S" {
+			continue
+		}
+		v := f[1]
+		if v == "-" {
+			v = ""
+		} else if !strings.HasPrefix(v, "!") {
+			b, _ := hex.DecodeString(v)
+			v = string(b)
+		}
+		res = append(res, v)
+	}
+	return res, nil
 }
 
 func (s *scratch) run(inputs []string) (map[string][]string, error) {
@@ -260,7 +333,7 @@ func (s *scratch) run(inputs []string) (map[string][]string, error) {
 	return res, nil
 }
 
-func famProbes(c *core.Ctx, t *tally) {
+func famProbes(c *core.Ctx, t *tally, pl scriptPlan) {
 	const (
 		tieBuild = "probes: the probe templates go through the repository's parser and generator and compile against the tree"
 		tieGen   = "probes: the generator calls ScriptContentInsideStringLiteral for holes inside a literal and ScriptContentOutsideStringLiteral for bare holes"
@@ -273,12 +346,20 @@ func famProbes(c *core.Ctx, t *tally) {
 	t.declare("tie", tieOut)
 	t.declare("prop", propPos)
 	t.declare("prop", propCall)
-	sc, gen, bad, err := buildProbes()
+	sc, gen, bad, err := buildProbes(pl)
 	if err != nil {
 		t.tie(tieBuild, map[string]string{"probes": "all"}, err.Error())
+		famScripts(c, t, pl, nil, nil)
 		return
 	}
 	defer sc.Close()
+	compiledOK := map[int]bool{}
+	for _, i := range pl.compiled {
+		if _, ok := gen[fmt.Sprintf("S%d", i)]; ok {
+			compiledOK[i] = true
+		}
+	}
+	defer famScripts(c, t, pl, sc, compiledOK)
 	for name, why := range bad {
 		tpl := ""
 		for _, p := range scriptProbes {
